@@ -171,6 +171,19 @@ def check(case, ctx):
         if r is not None:
             ctx.le("q_rot(q, v) = R(q)^T v (inverse rotation)", np.linalg.norm(r - Rq.T @ v) / nv, TOL_ROT,
                    {"got": r, "ref": Rq.T @ v}, route="orientation.q_rot")
+    # "rotating v with the quaternion ... equals the vector part of q v q*": the sandwich through the product method and both operators, the pure
+    # quaternion (0, v) handed over as an array and as an object - for v of any length, and for v almost (not exactly) of unit length
+    for lab, vv in (("v", v), ("v almost of unit length", v / nv * (1.0 + (1e-9 + (abs(float(q[1])) * 1e-5) % 9e-6) * (1.0 if q[2] > 0 else -1.0)))):
+        pv = np.r_[0.0, vv]
+        qc_ = rq.qconj(q)
+        outs = call(lambda: (np.asarray(ahrs.Quaternion(np.asarray(Qo.product(pv.copy()), float), versor=False).product(qc_.copy()), float),
+                             np.asarray(ahrs.Quaternion(np.asarray(Qo * pv.copy(), float), versor=False) * qc_.copy(), float),
+                             np.asarray(ahrs.Quaternion(np.asarray(Qo @ ahrs.Quaternion(pv.copy(), versor=False), float), versor=False) @ ahrs.Quaternion(qc_.copy()), float)))
+        if ctx.returned(outs, route="Quaternion.product"):
+            want = np.r_[0.0, Rq @ vv]
+            for nm_, got in zip(("Quaternion.product", "Quaternion.__mul__", "Quaternion.__matmul__"), outs.value):
+                ctx.le("vec(q v q*) through the library's own product = R v (the length of v kept)", np.linalg.norm(got - want) / np.linalg.norm(vv), TOL_ROT, {"which": lab, "got": got, "ref": want, "|v|": float(np.linalg.norm(vv))},
+                       route=nm_)
     # rotation through the matrix forms of the product: vec(L(q) R(q*) (0, v)) and vec(L(q) L(V) q*) with V = (0, v) kept as given (|v| != 1)
     r = "Quaternion.rotate(3,)"
     Vq = ahrs.Quaternion(np.r_[0.0, v], versor=False)
